@@ -117,7 +117,7 @@ CONFIG.rule = ("statics of net_ha.c reached by #include: the four range predicat
                "documented ranges; KSI_HighAvailabilityService_consolidateConfig on all pairs of per-field boundary values and on all "
                "permutations of <=4 random configurations (in-range, out-of-range, zero, absent), compared with the model and with "
                "max/min over the documented ranges; handleReqResponse/handleErrorResponse on every sequence of outcomes of every "
-               "order for 1..3 endpoints (thorough 1..4) and random ones for up to 8. Distinct by op line; all non-trivial.")
+               "order for 1..3 endpoints (thorough 1..4) and random ones for up to 8. Distinct by op line; all non-trivial. Second engine (c15b): a real HA signing service over 1..3 real TCP sub-services on a scripted socket with the configuration callback registered on the context; 1..6 pushed configurations (values in and out of the documented ranges); what the callback is told = the consolidated sequence.")
 CONFIG.trusted_base = [
     "Lean 4.33.0 kernel; axioms propext, Classical.choice, Quot.sound only",
     "translator/cexpr.py turns the four C predicate bodies into Lean expression by expression (refuses anything outside its subset); cross-checked against the compiled C functions on every run",
